@@ -10,7 +10,7 @@ DEFAULT = dict(
   caps=(2, 3, 4, 500), live=0.5, clocks=("fine", "fine", "const", "coarse"),
   nops=(4, 12), w_ops=dict(step=50, dispatch=8, post=10, defer=6, recall=6, is_in=6, child=4,
                            scribble=3, clear_spy=1, clear_trace=1, empty_rtc=3),
-  p_bad_child=0.15,
+  p_bad_child=0.15, p_top_query=0.12, p_shared_names=0.15, p_bound=0.15, p_cs=0.1,
 )
 
 
@@ -68,7 +68,9 @@ def gen_chart(rng, P):
           lst = []
           for _ in range(rng.randint(1, 2)):
             k = rng.choice(["post_fifo", "post_lifo", "defer", "recall", "scribble"])
-            if k == "recall":
+            if rng.random() < P["p_cs"]:
+              k = "cs"
+            if k in ("recall", "cs"):
               lst.append([k])
             elif k == "scribble":
               lst.append([k, rng.choice(["note", "x y", "hello:world"])])
@@ -86,6 +88,16 @@ def gen_chart(rng, P):
     "live_spy": rng.random() < P["live"], "live_trace": rng.random() < P["live"],
     "clock": rng.choice(P["clocks"]),
   }
+  # state-function names: unique (s1, s2, ..) or shared by several states (closures, undecorated wrappers: all called `state`)
+  r = rng.random()
+  if r < P["p_shared_names"] / 2:
+    chart["names"] = ["state"] * n
+  elif r < P["p_shared_names"]:
+    chart["names"] = [rng.choice(["state", "wrapper", "s%d" % (i + 1)]) for i in range(n)]
+  else:
+    chart["names"] = ["s%d" % (i + 1) for i in range(n)]
+  # handlers as plain functions or as bound methods of a helper object
+  chart["hstyle"] = "bound" if rng.random() < P["p_bound"] else "fn"
   return chart
 
 
@@ -114,9 +126,12 @@ def gen_ops(rng, chart, P):
     elif k == "recall":
       ops.append(["recall"])
     elif k == "is_in":
-      ops.append(["is_in", rng.randint(1, n)])
+      ops.append(["is_in", 0 if rng.random() < P["p_top_query"] else rng.randint(1, n)])     # 0: the query is about chart.top
     elif k == "child":
-      ops.append(["child_state", rng.randint(1, n)] if rng.random() < P["p_bad_child"] else ["child_state", -1, rng.randrange(0, 12)])
+      if rng.random() < P["p_top_query"]:
+        ops.append(["child_state", 0])
+      else:
+        ops.append(["child_state", rng.randint(1, n)] if rng.random() < P["p_bad_child"] else ["child_state", -1, rng.randrange(0, 12)])
     elif k == "scribble":
       ops.append(["scribble", rng.choice(["ext note", "z"])])
     elif k == "clear_spy":
